@@ -1103,13 +1103,12 @@ class Hyperplane(Subspace):
         return self.proj_data[..., 1:, :]
 
     def _compute_ideal_basis(self, vector):
-        # one (1, n) block per normal vector, so that an array of
-        # normals gives an array of hyperplanes (rather than being read
-        # as the rows of a single partial isometry)
-        spacelike_vector = np.expand_dims(DualPoint(vector).proj_data,
-                                          axis=-2)
-        n = spacelike_vector.shape[-1]
-        transform = spacelike_to(spacelike_vector)
+        # one isometry and one (1, n) block per normal vector, so that
+        # an array of normals gives an array of hyperplanes
+        normal = DualPoint(vector).proj_data
+        n = normal.shape[-1]
+        transform = spacelike_to(normal)
+        spacelike_vector = np.expand_dims(normal, axis=-2)
 
         standard_ideal_basis = np.vstack(
             [np.ones((1, n-1)), np.eye(n - 1, n - 1, -1)]
